@@ -90,7 +90,7 @@ def run(tier="quick"):
             res = None
     cached = res is not None
     if res is None:
-        cfg = {"reportRegion": "output", "track": 512, "maxPaths": 50000}
+        cfg = {"reportRegion": "output", "track": 512, "maxPaths": 50000, "maxWallSec": 300 if tier == "quick" else 1500}
         res = xai.run_cells(info["bc"], cells, cfg)
         try:
             ser = {}
